@@ -112,6 +112,14 @@ func (x *txnCtx) applyFilter(chain []FStep) sel {
 	first := &x.first
 	for i := range chain {
 		f := &chain[i]
+		if i > 0 && x.w.triggered["union-after-clear"] && s != nil && x.w.viol == nil {
+			// the known finding was just exercised: judge it right here, before anything
+			// downstream (aggregates, DeleteAll, DeleteAt) builds on the diverged selection
+			if got := x.txn.Count(); got != len(s) {
+				x.w.fail(violation("filter/count", "Count after %s = %d, set algebra on the model gives %d", showChain(chain[:i]), got, len(s)))
+				return s
+			}
+		}
 		if (f.Kind == "union" || f.Kind == "withunion") && x.cleared {
 			// known finding: a selection emptied by a filter on a missing column cannot be widened again
 			if x.w.avoid["union-after-clear"] {
@@ -220,6 +228,11 @@ func (x *txnCtx) applyFilter(chain []FStep) sel {
 		*first = false
 	}
 	*first = false
+	if x.w.triggered["union-after-clear"] && s != nil && x.w.viol == nil {
+		if got := x.txn.Count(); got != len(s) {
+			x.w.fail(violation("filter/count", "Count after %s = %d, set algebra on the model gives %d", showChain(chain), got, len(s)))
+		}
+	}
 	return s
 }
 
